@@ -56,11 +56,11 @@ type sigOp struct {
 	PC  int `json:"pc"`  // 0 or 1
 	Ty  int `json:"ty"`  // SDPType put on the description (0..5; 5 = undeclared value)
 	Ref int `json:"ref"` // index of the create call providing the SDP text, -1 = empty text
-	Mut int `json:"mut"` // mutation class
+	Mut int `json:"mut"` // mutation class; on a create call: 1 + index of the PeerConnection whose senders cannot start under the text produced
 }
 
 type sigCase struct {
-	Cfg [2]int  `json:"cfg"` // what each PeerConnection carries: 0 data channel; 1 + audio transceiver; 2 + audio and video transceivers (sendrecv)
+	Cfg [2]int  `json:"cfg"` // what each PeerConnection carries: 0 data channel; 1 + audio transceiver; 2 + audio and video transceivers (sendrecv); 3 default codecs, a VP8 track; 4 H264 only, a video transceiver
 	Ops []sigOp `json:"ops"`
 }
 
@@ -238,7 +238,14 @@ func (p *sigPC) count() int { p.mu.Lock(); defer p.mu.Unlock(); return len(p.eve
 
 func sigNewPC(cfg int) *sigPC {
 	me := &webrtc.MediaEngine{}
-	if err := me.RegisterDefaultCodecs(); err != nil {
+	if cfg == 4 { // H264 only
+		if err := me.RegisterCodec(webrtc.RTPCodecParameters{
+			RTPCodecCapability: webrtc.RTPCodecCapability{MimeType: webrtc.MimeTypeH264, ClockRate: 90000,
+				SDPFmtpLine: "level-asymmetry-allowed=1;packetization-mode=1;profile-level-id=42e01f"},
+			PayloadType: 102}, webrtc.RTPCodecTypeVideo); err != nil {
+			panic(err)
+		}
+	} else if err := me.RegisterDefaultCodecs(); err != nil {
 		panic(err)
 	}
 	pc, err := newQuietAPI(me).NewPeerConnection(webrtc.Configuration{})
@@ -246,6 +253,18 @@ func sigNewPC(cfg int) *sigPC {
 		panic(err)
 	}
 	switch cfg {
+	case 3: // a bound VP8 track
+		tr, terr := webrtc.NewTrackLocalStaticSample(webrtc.RTPCodecCapability{MimeType: webrtc.MimeTypeVP8}, "v", "s")
+		if terr != nil {
+			panic(terr)
+		}
+		if _, err = pc.AddTrack(tr); err != nil {
+			panic(err)
+		}
+	case 4:
+		if _, err = pc.AddTransceiverFromKind(webrtc.RTPCodecTypeVideo); err != nil {
+			panic(err)
+		}
 	case 2:
 		if _, err = pc.AddTransceiverFromKind(webrtc.RTPCodecTypeVideo); err != nil {
 			panic(err)
@@ -280,10 +299,11 @@ func sigExec(c sigCase) *sigTrace {
 			_ = p.pc.Close()
 		}
 	}()
-	ids := map[string]int{}          // normalised text -> identity
+	ids := map[string]int{}          // text handed to a set call (exact) -> identity
+	normIDs := map[string]int{}      // created text, candidate lines removed -> identity (local getters re-marshal)
 	created := map[int]*string{}     // op index -> text of a successful create call
 	tr := &sigTrace{}
-	idOf := func(d *webrtc.SessionDescription) *sigDesc {
+	idOf := func(d *webrtc.SessionDescription, local bool) *sigDesc {
 		if d == nil {
 			return nil
 		}
@@ -291,15 +311,19 @@ func sigExec(c sigCase) *sigTrace {
 		if n == "" || n == sigEmptyMarshal {
 			return &sigDesc{int(d.Type), 0}
 		}
-		if id, ok := ids[n]; ok {
+		if local {
+			if id, ok := normIDs[n]; ok {
+				return &sigDesc{int(d.Type), id}
+			}
+		} else if id, ok := ids[d.SDP]; ok {
 			return &sigDesc{int(d.Type), id}
 		}
 		return &sigDesc{int(d.Type), -2}
 	}
 	slots := func(p *sigPC) sigSlots {
-		return sigSlots{idOf(p.pc.PendingLocalDescription()), idOf(p.pc.CurrentLocalDescription()),
-			idOf(p.pc.PendingRemoteDescription()), idOf(p.pc.CurrentRemoteDescription()),
-			idOf(p.pc.LocalDescription()), idOf(p.pc.RemoteDescription())}
+		return sigSlots{idOf(p.pc.PendingLocalDescription(), true), idOf(p.pc.CurrentLocalDescription(), true),
+			idOf(p.pc.PendingRemoteDescription(), false), idOf(p.pc.CurrentRemoteDescription(), false),
+			idOf(p.pc.LocalDescription(), true), idOf(p.pc.RemoteDescription(), false)}
 	}
 	for i, op := range c.Ops {
 		if op.PC < 0 || op.PC > 1 {
@@ -321,7 +345,8 @@ func sigExec(c sigCase) *sigTrace {
 			if err == nil {
 				t := d.SDP
 				created[i] = &t
-				ids[sigNormalize(t)] = 16 * (i + 1)
+				ids[t] = 16 * (i + 1)
+				normIDs[sigNormalize(t)] = 16 * (i + 1)
 			}
 		case sigSetLocal, sigSetRemote:
 			id := 0
@@ -332,7 +357,7 @@ func sigExec(c sigCase) *sigTrace {
 				}
 				text = sigMutate(*t, mut)
 				id = 16*(op.Ref+1) + mut
-				ids[sigNormalize(text)] = id
+				ids[text] = id
 			}
 			goTy := op.Ty
 			if goTy >= 5 {
